@@ -24,6 +24,12 @@ func checkC05(c *Ctx) {
 	for _, p := range mcPairs {
 		c.runStoreMC([]ModelKind{p.a, p.b}, "OpsCore", keys, maxTotal, fmt.Sprintf("%s%d x %s%d", p.a.Kind, p.a.N, p.b.Kind, p.b.N))
 	}
+	c.runDenseImplMC("IK_Low2Low4", 2, "lowest-collapsing 2 x 4 (array level)")
+	c.runDenseImplMC("IK_Low3High2", 1, "lowest 3 x highest 2 (array level)")
+	if !c.quick() {
+		c.runDenseImplMC("IK_High2High4", 2, "highest-collapsing 2 x 4 (array level)")
+		c.runDenseImplMC("IK_ExactLow2", 3, "dense x lowest-collapsing 2 (array level)")
+	}
 	treePairs := []pair{{ModelKind{"low", 2}, ModelKind{"low", 4}}, {ModelKind{"high", 2}, ModelKind{"high", 4}},
 		{ModelKind{"low", 3}, ModelKind{"high", 2}}, {ModelKind{"exact", 0}, ModelKind{"low", 2}}}
 	if !c.quick() {
@@ -45,4 +51,6 @@ func checkC05(c *Ctx) {
 	c.runStoreTraces(c.pick(24, 200), traceGenOpts{Events: c.pick(400, 2000), Kinds: []string{"low", "high", "low", "high", "dense", "sparse", "paged"},
 		Limits: []int{1, 2, 3, 8, 128, 2048},
 		Ops: []string{"Add", "Add", "AddWithCount", "AddWithCount", "AddBin", "AddRepeat", "Merge", "Merge", "CopyTo", "Clear", "Reweight", "EncDec", "Proto", "Read"}}, "collapsing stores")
+	c.runStoreTraces(c.pick(12, 100), traceGenOpts{Layout: true, MaxWidth: 60, Events: c.pick(300, 1500), Kinds: []string{"low", "high", "low", "high", "dense", "paged"},
+		Limits: []int{1, 2, 3, 8, 32, 128}, Ops: []string{"Add", "AddWithCount", "AddRepeat", "Merge", "Merge", "CopyTo", "Clear", "Reweight", "EncDec", "Read"}}, "collapsing stores, array layout")
 }
